@@ -56,9 +56,60 @@ def rand_coinbase(rng):
     return powdev.compress_coinbase(full, nb), full
 
 
-def rand_header(rng, nfields=None, big=False):
+def enc_len(b):
+    """length of the RLP encoding of the byte string b"""
+    return len(rlp_enc(b))
+
+
+def field_of_enc_len(rng, n):
+    """a byte string whose RLP encoding is exactly n bytes long (None when no string has that length)"""
+    if n < 1:
+        return None
+    if n == 1:
+        return rng.choice([b"", bytes([rng.randrange(0, 0x80)])])
+    if n == 2:
+        return bytes([rng.randrange(0x80, 0x100)])
+    for hdr in (1, 2, 3, 4):
+        L = n - hdr
+        if L >= 0 and len(rlp_len_prefix(L, 0x80)) == hdr and L != 1:
+            return g.rand_bytes(rng, L)
+    return None
+
+
+BOUNDARY_PAYLOADS = [54, 55, 56, 57, 58, 255, 256, 257, 65535, 65536, 65537]
+
+
+def boundary_header(rng, nfields, target):
+    """a header of `nfields` fields whose payload WITHOUT the merge-mining fields is exactly `target` bytes of
+    RLP (the size announced to the device sits on an RLP length-form boundary); fields are tiny except one"""
+    kept = nfields - 3 if nfields in (19, 20) else nfields - 1
+    while True:
+        fields = [rng.choice([b"", bytes([rng.randrange(256)]), g.rand_bytes(rng, rng.choice([2, 3]))])
+                  for _ in range(kept)]
+        k = rng.randrange(kept)
+        rest = sum(enc_len(f) for i, f in enumerate(fields) if i != k)
+        f = field_of_enc_len(rng, target - rest)
+        if f is not None:
+            fields[k] = f
+            break
+    assert sum(enc_len(f) for f in fields) == target
+    full = None
+    if nfields in (19, 20):
+        fields.append(g.rand_bytes(rng, 80))
+        fields.append(g.rand_bytes(rng, 32 * rng.randrange(0, 3)))
+        cb, full = rand_coinbase(rng)
+        fields.append(cb)
+    else:
+        fields.append(g.rand_bytes(rng, rng.choice([0, 1, 8])))
+    assert len(fields) == nfields
+    return rlp_enc(fields), (fields[-1], full) if nfields in (19, 20) else None
+
+
+def rand_header(rng, nfields=None, big=False, boundary=0.0):
     """RSK block header as an RLP list of 17..20 fields; returns (raw, full_coinbase or None)"""
     nf = nfields if nfields is not None else rng.choice([19, 19, 20, 20, 17, 18])
+    if boundary and rng.random() < boundary:
+        return boundary_header(rng, nf, rng.choice(BOUNDARY_PAYLOADS[:8] if not big else BOUNDARY_PAYLOADS))
     sizes = [32, 32, 20, 32, 32, 32, 256, rng.choice([1, 2, 8]), rng.choice([1, 3, 4]), 4, 4, 4,
              rng.choice([0, 1, 5, 55, 56, 60]), rng.choice([0, 1, 3]), 1, rng.choice([0, 1, 32])]
     fields = []
@@ -111,27 +162,27 @@ def sign_v1_request(rng, path=None):
             "message": g.rand_bytes(rng, 32).hex()}
 
 
-def advance_request(rng, nblocks=None, maxbros=3, big=False):
+def advance_request(rng, nblocks=None, maxbros=3, big=False, boundary=0.0):
     n = nblocks if nblocks is not None else rng.choice([1, 1, 2, 3, 5])
     blocks, bros, fulls = [], [], {}
     for _ in range(n):
-        raw, cb = rand_header(rng, nfields=rng.choice([19, 20]), big=big)
+        raw, cb = rand_header(rng, nfields=rng.choice([19, 20]), big=big, boundary=boundary)
         blocks.append(raw.hex())
         fulls[cb[0].hex()] = cb[1].hex()
         bl = []
         for _ in range(rng.randrange(0, maxbros + 1)):
-            r2, cb2 = rand_header(rng, nfields=rng.choice([19, 20]))
+            r2, cb2 = rand_header(rng, nfields=rng.choice([19, 20]), boundary=boundary)
             bl.append(r2.hex())
             fulls[cb2[0].hex()] = cb2[1].hex()
         bros.append(bl)
     return {"command": "advanceBlockchain", "version": 5, "blocks": blocks, "brothers": bros}, fulls
 
 
-def update_request(rng, nblocks=None, big=False):
+def update_request(rng, nblocks=None, big=False, boundary=0.0):
     n = nblocks if nblocks is not None else rng.choice([1, 1, 2, 3, 5])
     blocks, fulls = [], {}
     for _ in range(n):
-        raw, cb = rand_header(rng, big=big)
+        raw, cb = rand_header(rng, big=big, boundary=boundary)
         blocks.append(raw.hex())
         if cb:
             fulls[cb[0].hex()] = cb[1].hex()
@@ -176,11 +227,13 @@ MUT_VALUES = [None, True, False, 0, -1, 1, 5, 2 ** 32 - 1, 2 ** 32, 2 ** 64 - 1,
               "ab" * 31, "ab" * 32, "ab" * 33, [], [[]], [""], ["ab"], {}, {"a": 1}, "legacy", "segwit", "Legacy",
               "m/44'/0'/0'/0/0", "m/44'/0'/0'/0", "m/44'/0'/0'/0/0/0", "m/44'/0'/0'/0/2147483648", "m/44'/0'/0'/0/-1",
               "m/٤٤'/0'/0'/0/0", "m/44''/0'/0'/0/0", "m//0'/0'/0/0", "44'/0'/0'/0/0", "m/44'/0'/0'/0/0'",
+              # strings of Unicode decimal digits / full-width letters: hex to a careless regex, not to bytes.fromhex
+              "\u0660\u0661\u0662\u0663", "\u0661\u0662" * 32, "\uff11\uff12", "\uff41\uff42", "ab\u0660\u0661", "\u0661\u0662" * 16,
               "version", "sign", "nope", 2147483647, 2147483648, 4294967295, 4294967296, 18446744073709551615,
               18446744073709551616]
 ABSENT = object()
 # always tried, even when the matrix is sampled
-PRIORITY = [None, "", "zz", [], {}, True, -1, 2 ** 32, "0x" + "ab" * 16, "0x" + "ab" * 32, "ab cd", 5.0]
+PRIORITY = [None, "", "zz", [], {}, True, -1, 2 ** 32, "0x" + "ab" * 16, "0x" + "ab" * 32, "ab cd", 5.0, "\u0660\u0661\u0662\u0663"]
 
 
 def paths_of(v, prefix=()):
